@@ -6,6 +6,8 @@
 package seqrun
 
 import (
+	"bytes"
+	"context"
 	"fmt"
 	"os"
 	"regexp"
@@ -13,6 +15,8 @@ import (
 	"strconv"
 	"strings"
 	"time"
+
+	"github.com/innovationb1ue/RedisGO/resp"
 
 	"rgverif/internal/gen"
 	"rgverif/internal/inproc"
@@ -34,8 +38,64 @@ type Div struct {
 	Program [][]string `json:"program,omitempty"`
 }
 
+// Executor is the vehicle a program runs on: the in-process instance, or a real server over TCP.
+type Executor interface {
+	Exec(cmd [][]byte) inproc.Result
+	Held() []int
+	Check() []string
+	Dump() []model.Entry
+	Reset()
+}
+
+type inprocExec struct{ in *inproc.Inst }
+
+func (e inprocExec) Exec(cmd [][]byte) inproc.Result { return e.in.Exec(cmd, nil) }
+func (e inprocExec) Held() []int                     { return e.in.Held() }
+func (e inprocExec) Check() []string                 { return e.in.Check() }
+func (e inprocExec) Dump() []model.Entry             { return e.in.Dump() }
+func (e inprocExec) Reset()                          {}
+
+// ViaParser encodes the program as RESP and decodes it with the real resp.ParseStream, so that every
+// argument lives in a buffer allocated by the parser. On any parser hiccup the original program is used.
+func ViaParser(prog []gen.Cmd) []gen.Cmd {
+	var buf bytes.Buffer
+	n := 0
+	for _, c := range prog {
+		if len(c) == 0 {
+			continue
+		}
+		buf.Write(respc.EncodeCommand(c))
+		n++
+	}
+	ctx, cancel := context.WithCancel(context.Background())
+	defer cancel()
+	ch := resp.ParseStream(ctx, bytes.NewReader(buf.Bytes()))
+	var out []gen.Cmd
+	for pr := range ch {
+		if pr.Err != nil {
+			break
+		}
+		arr, ok := pr.Data.(*resp.ArrayData)
+		if !ok {
+			return prog
+		}
+		out = append(out, arr.ToCommand())
+	}
+	if len(out) != n {
+		return prog
+	}
+	// ToCommand hands out the parser's own byte slices
+	for i := range out {
+		if len(out[i]) != len(prog[i]) {
+			return prog
+		}
+	}
+	return out
+}
+
 // Opts controls one run.
 type Opts struct {
+	Exec    Executor // nil: a fresh in-process instance
 	Journal *os.File // every command is appended before it is executed
 	Strict  bool     // also report framing-only mismatches (C03)
 	Prog    int
@@ -172,8 +232,18 @@ func closeBracket(tm model.Time) model.Time {
 // the rest of the program still counts) and the coverage.
 func Run(prog []gen.Cmd, o Opts) ([]Div, Stats) {
 	st := Stats{Tuples: map[string]int{}}
-	in := inproc.New()
-	defer in.Stop()
+	var in Executor
+	if o.Exec != nil {
+		in = o.Exec
+		in.Reset()
+	} else {
+		ip := inproc.New()
+		defer ip.Stop()
+		in = inprocExec{ip}
+	}
+	// the arguments reach the executors in the buffers the real parser allocates (spare capacity, shared
+	// backing arrays), exactly as on a connection
+	prog = ViaParser(prog)
 	db := model.NewDB()
 	var divs []Div
 	add := func(d Div) {
@@ -191,7 +261,7 @@ func Run(prog []gen.Cmd, o Opts) ([]Div, Stats) {
 		}
 		kt := keyType(db, cmd)
 		tm := now()
-		res := in.Exec(cmd, nil)
+		res := in.Exec(cmd)
 		tm = closeBracket(tm)
 		st.Steps++
 		shape := Shape(cmd)
@@ -199,7 +269,9 @@ func Run(prog []gen.Cmd, o Opts) ([]Div, Stats) {
 			top := strings.SplitN(res.Panic, "\n", 3)
 			frame := ""
 			if len(top) > 1 {
-				frame = strings.Fields(top[1])[0]
+				if f := strings.Fields(top[1]); len(f) > 0 {
+					frame = f[0]
+				}
 			}
 			add(Div{Kind: "panic", Step: i, Cmd: Quote(cmd), Got: res.Panic,
 				Sig: "panic|" + name + "|" + shape + "|" + frame})
@@ -251,6 +323,9 @@ func Run(prog []gen.Cmd, o Opts) ([]Div, Stats) {
 				Sig: "struct|" + name + "|" + Generalise(fresh[0])})
 		}
 		impl := in.Dump()
+		if impl == nil && o.Exec != nil {
+			continue // the dump is unavailable on this vehicle for this state: replies remain the oracle
+		}
 		if out.Unspecified {
 			db.Load(impl)
 			continue
